@@ -2,6 +2,7 @@
 pyhf patchset provides a user-friendly interface for interacting with patchsets.
 """
 
+import copy
 import logging
 import jsonpatch
 from pyhf import exceptions
@@ -316,4 +317,6 @@ class PatchSet:
             workspace (:class:`~pyhf.workspace.Workspace`): The background-only workspace with the patch applied.
         """
         self.verify(spec)
-        return Workspace(self[key].apply(spec))
+        # apply a copy of the operations: jsonpatch inserts 'value' objects by reference, so a later
+        # operation of the same patch could otherwise edit the stored patch (and the caller's document)
+        return Workspace(Patch(copy.deepcopy({'patch': self[key].patch, 'metadata': self[key].metadata})).apply(spec))
